@@ -331,7 +331,8 @@ def run_query(q, workdir, replays_dir, prop_id):
         res["wall_s"] = time.time() - t0
         return res
     cmd = cbmc_cmd(q, gb, False, True)
-    rc, out, wall, st = run_cmd(["/usr/bin/time", "-f", "MAXRSS_KB %M"] + cmd, q.timeout, q.mem_gb)
+    tmpenv = dict(os.environ, TMPDIR=workdir)      # solver scratch files die with the work directory
+    rc, out, wall, st = run_cmd(["/usr/bin/time", "-f", "MAXRSS_KB %M"] + cmd, q.timeout, q.mem_gb, env=tmpenv)
     m_rss = re.search(r"MAXRSS_KB (\d+)", out)
     if m_rss:
         res["rss_mb"] = int(m_rss.group(1)) // 1024
@@ -411,7 +412,7 @@ def run_query(q, workdir, replays_dir, prop_id):
             res["notes"].append(msg[-2000:])
         else:
             cmdw = cbmc_cmd(q, gbw, True, False)
-            rcw, outw, wallw, stw = run_cmd(cmdw, q.timeout, q.mem_gb)
+            rcw, outw, wallw, stw = run_cmd(cmdw, q.timeout, q.mem_gb, env=tmpenv)
             if stw != "ok":
                 res["witness"] = stw
             elif re.search(r"WITNESS reached: FAILURE", outw):
